@@ -19,7 +19,7 @@ from cnfgen.formula.opb import OPB
 from cnfgen.graphs import (BipartiteGraph, DirectedGraph, Graph,
                            bipartite_shift)
 
-from detsim.core import Violation, call, exc_signature
+from detsim.core import canon, Violation, call, exc_signature
 from detsim.refmodels import cnfref
 from detsim.runner import REPO
 from detsim.simrandom import SimRandom, installed
@@ -82,6 +82,13 @@ GRAPH_FAMILIES = {
     "dag": ["peb", "stone"],
     "bipartite": ["gphp", "subsetcard"],
 }
+
+
+# transformations that differ by one word only
+SIBLING = {"eq": "neq", "neq": "eq", "atleast": "atmost",
+           "atmost": "atleast", "exact": "anybut", "anybut": "exact",
+           "or": "xor", "xor": "or", "xorcomp": "majcomp",
+           "majcomp": "xorcomp"}
 
 
 def _gen_formula(rng):
@@ -293,6 +300,7 @@ def execute(case, ctx):
     lidx = [pool.add("list", list(l), "list#%d" % i)
             for i, l in enumerate(case["lists"])]
     step = [0, None]
+    said = {}               # provenance text -> the step it recorded
     chained = mutated_results = 0
     results = set()
     built_from = {}
@@ -359,6 +367,34 @@ def execute(case, ctx):
                     raise Violation("C19/result-is-the-input/%s" % tname,
                                     "step %d %r" % (si, op))
                 _check_provenance(pool.items[src][2], G, tname, si, op)
+                # "the header tells how the formula was produced": two
+                # different transformations cannot be recorded by the same
+                # words
+                nsrc = sum(1 for k in F.header
+                           if k.startswith("transformation "))
+                text = G.header.get("transformation %d" % (nsrc + 1))
+                what_it_was = (tname, canon(tp) if "B" not in tp else "B")
+                other = said.setdefault(text, what_it_was)
+                if other != what_it_was and other[0] != tname:
+                    raise Violation(
+                        "C19/provenance/same-words-for-different-steps/%s" %
+                        "+".join(sorted([tname, other[0]])),
+                        "step %d %r: %r is recorded as %r, the words that "
+                        "also record %r" % (si, op, what_it_was, text,
+                                            other))
+                sib = SIBLING.get(tname)
+                if sib:
+                    _, sapply, _ = registry.TRANSFORMS[sib]
+                    with installed(SimRandom(op["seed"])):
+                        rs = call(sapply, F, tp)
+                    if rs[0] == "ok" and rs[1].header.get(
+                            "transformation %d" % (nsrc + 1)) == text:
+                        raise Violation(
+                            "C19/provenance/same-words-for-different-steps/"
+                            "%s" % "+".join(sorted([tname, sib])),
+                            "step %d %r: %s and %s of the same formula are "
+                            "both recorded as %r" % (si, op, tname, sib,
+                                                     text))
                 j = pool.add("formula", G, "result of %s@%d" % (tname, si))
                 results.add(j)
                 if src in results:
